@@ -272,12 +272,24 @@ private:
 
     std::optional<DFS::SectorBuffer> read_block(unsigned long lba) override
     {
-      if (lba >= sectors_.size())
+      if (0 == geom_.sectors || lba >= geom_.total_sectors())
 	return std::nullopt;
-      const Sector& sect(sectors_[lba]);
-      DFS::SectorBuffer buf;
-      std::copy(sect.data.begin(), sect.data.end(), buf.begin());
-      return buf;
+      // Find the sector by its recorded address, not by its position
+      // in the list: a sector which failed its CRC check is absent.
+      Track::SectorAddress addr;
+      addr.head = static_cast<unsigned char>(side_);
+      addr.cylinder = static_cast<unsigned char>(lba / geom_.sectors);
+      addr.record = static_cast<unsigned char>(lba % geom_.sectors);
+      for (const Sector& sect : sectors_)
+	{
+	  if (sect.address == addr)
+	    {
+	      DFS::SectorBuffer buf;
+	      std::copy(sect.data.begin(), sect.data.end(), buf.begin());
+	      return buf;
+	    }
+	}
+      return std::nullopt;
     }
 
     std::string description() const override
